@@ -64,6 +64,20 @@ def _apply_selftest_mutation(name):
         R._attempt_type_coercion = f
     elif name == "no_finite_guard":
         R.math = type("M", (), {"isfinite": staticmethod(lambda x: True)})
+    elif name == "no_underflow_guard":      # the state before 80b6126: a literal that float() reads as zero is coerced
+        orig = R._attempt_type_coercion
+        def f(value, constraint, repair_log):
+            v, d = orig(value, constraint, repair_log)
+            if not d and isinstance(value, str) and constraint.expected_type == "NUMBER":
+                try:
+                    x = float(value.strip())
+                except (ValueError, OverflowError):
+                    return v, d
+                if x == 0 and ("." in value or "e" in value.lower()):
+                    repair_log.add(rule_id="TYPE_COERCION", before=value, after=str(x), tier=RepairTier.REPAIR)
+                    return x, True
+            return v, d
+        R._attempt_type_coercion = f
     elif name == "fill_none":
         orig = R.repair_value
         def f(value, field_def, repair_log, fix=False):
